@@ -842,6 +842,38 @@ def gen_value(rng, td, big=False):
     raise ValueError(td)
 
 
+def gen_positional_calls(rng, n=60):
+    """positional calls T.encode(*args) with the boundary values of every argument:
+    DATE_AND_TIME(time, date) over {0, 1, max-1, max} x {0, 1, max-1, max} (+ out-of-range and junk),
+    STRINGN(value, char_size) for each legal size and the illegal ones, STRINGI(*items) from no item
+    at all to several, Array.encode(values, length) around the declared length"""
+    dt = _dt()
+    out = []
+    tb = [0, 1, (1 << 32) - 2, (1 << 32) - 1]
+    db = [0, 1, (1 << 16) - 2, (1 << 16) - 1]
+    for t in tb:
+        for d in db:
+            out.append(("enca", ("elem", "DATE_AND_TIME"), (t, d)))
+    for t, d in ((-1, 0), (0, -1), (1 << 32, 0), (0, 1 << 16), (None, 0), (0, None), ("a", 0), (0, "a"), (0, 0.0), (0, False), (0, True), ((1, 2), None), ((1, 0), None)):
+        out.append(("enca", ("elem", "DATE_AND_TIME"), (t, d)))
+    for _ in range(n):
+        out.append(("enca", ("elem", "DATE_AND_TIME"), (gen_int(rng, False, 4), gen_int(rng, False, 2))))
+    out += [("enca", ("elem", "DATE_AND_TIME"), ()), ("enca", ("elem", "DATE_AND_TIME"), (1, 2, 3))]
+    for cs in (1, 2, 4, 0, 3, 8, True, False, None, "1"):
+        for s in ("", "a", "é", "Ā", "\U0001F600", gen_text(rng, rng.randrange(0, 9), rng.choice(["ascii", "latin1", "bmp", "astral"]))):
+            out.append(("enca", ("elem", "STRINGN"), (s, cs)))
+    items = lambda: gen_value(rng, ("elem", "STRINGI"))
+    for k in (0, 0, 1, 2, 3, 5):
+        out.append(("enca", ("elem", "STRINGI"), tuple(items() for _ in range(k))))
+    for _ in range(n // 3):
+        k = rng.randrange(0, 5)
+        td = ("arr", k, ("elem", rng.choice(["UINT", "SINT", "BOOL", "SHORT_STRING", "BYTE"])))
+        v = gen_value(rng, td)
+        for ln in (None, 0, 1, max(0, k - 1), k, k + 1, True):
+            out.append(("enca", td, (v, ln)))
+    return out
+
+
 JUNK = [None, True, False, 0, 1, -1, 255, 256, 65535, 65536, 1 << 32, 1 << 64, -(1 << 63) - 1, 0.0, 1.5, float("nan"), float("inf"), 1e39,
         "", "a", "ab", "abc", "Ā", "\U0001F600", "\ud800", b"", b"\x00", b"ab", b"abcd", [], [1], [1, 2], [True] * 8, [None], ["a", "b"],
         (), (1, 2), (1,), {}, {"a": 1}, {None: 1}, {"": 2}, [[1]], [b"ab"], "1.2.3.4", "1.2.3", "01.2.3.4", "256.1.1.1", [1.5]]
